@@ -8,10 +8,10 @@ Definition E0 : pyenv := {| int_of := []; b64_of := [] |}.
    literal_eval of those texts *)
 Definition T0 : tables :=
   {| t_b64 := [];
-     t_fmt := [(fmk 5 (-1), [50;46;53]%N); (fnegzero, [45;48]%N); (fzero, [48]%N); (of_Z 1, [49]%N)];
+     t_fmt := [(fmk 5 (-1), [50;46;53]%N); (fnegzero, [45;48]%N); (fzero, [48]%N); (of_Z 1, [49]%N); (of_Z 2, [50]%N)];
      t_repr := [(PInt 5, [53]%N); (PStr [97%N], [39;97;39]%N)];
      t_lit := [([53]%N, PInt 5); ([50;46;53]%N, PFloat (fmk 5 (-1))); ([45;48]%N, PInt 0); ([48]%N, PInt 0);
-               ([39;97;39]%N, PStr [97%N])] |}.
+               ([39;97;39]%N, PStr [97%N]); ([50]%N, PInt 2)] |}.
 Definition C0 : codec := codec_of T0.
 
 (* finding one-tuple-text: TupleOf(IntRange(0,5)): to_string((5,)) = "(5)" and from_string("(5)") raises WrongTypeError *)
@@ -29,14 +29,23 @@ Proof.
   repeat split; vm_compute; reflexivity.
 Qed.
 
-(* finding setparam-unexported: ScaledInteger(0.5, 0, 10) holding 2.5: setParameterFromString("2.5") sets the node to 1.0,
-   with export_value it would be 2.5 *)
+(* finding setparam-unexported: ScaledInteger(0.5, 0, 10): setParameterFromString("2.5") is refused by the node (the
+   float 2.5 is sent instead of the integer 5), setParameterFromString("2") sets the node to 1.0 instead of 2.0;
+   with export_value both would arrive unchanged *)
 Theorem C02_refuted_setparam_scaled :
+  exists d v t, valid d v = true /\ to_string C0 d v = Ok t /\
+                set_from_string C0 E0 d d t = Err EWrongType /\
+                res_same (set_from_string_exported C0 E0 d d t) (Ok v) = true.
+Proof.
+  exists (TScaled (fmk 1 (-1)) fzero (of_Z 10)), (PFloat (fmk 5 (-1))), (PA [50;46;53]%N).
+  repeat split; vm_compute; reflexivity.
+Qed.
+Theorem C02_refuted_setparam_scaled_value :
   exists d v t, valid d v = true /\ to_string C0 d v = Ok t /\
                 res_same (set_from_string C0 E0 d d t) (Ok (PFloat (of_Z 1))) = true /\
                 res_same (set_from_string_exported C0 E0 d d t) (Ok v) = true.
 Proof.
-  exists (TScaled (fmk 1 (-1)) fzero (of_Z 10)), (PFloat (fmk 5 (-1))), (PA [50;46;53]%N).
+  exists (TScaled (fmk 1 (-1)) fzero (of_Z 10)), (PFloat (of_Z 2)), (PA [50]%N).
   repeat split; vm_compute; reflexivity.
 Qed.
 
